@@ -403,7 +403,7 @@ func (c *SpecCtx) index(x *ast.IndexExpr) SpecVal {
 	switch t := b.Typ.Underlying().(type) {
 	case *types.Slice:
 		k := ft.elemKey(t.Elem())
-		return c.mk(sel(ft.get(c.st, k), app("sl-base", b.T), app("+", app("sl-off", b.T), i.T)), t.Elem())
+		return c.mk(app(ft.atFun(k), ft.get(c.st, k), b.T, i.T), t.Elem())
 	case *types.Map:
 		ks := ft.mapKeys(t)
 		has := and(not(eq(b.T, "0")), sel(ft.get(c.st, ks[0]), b.T, i.T))
@@ -632,6 +632,58 @@ func (c *SpecCtx) call(x *ast.CallExpr) SpecVal {
 		return bv(and(app("<", "0", t), app("<", t, ft.get(c.st, "$next"))))
 	case "forall", "exists":
 		return c.quant(name, x)
+	case "row":
+		v := c.tr(x.Args[0])
+		sl, ok := v.Typ.Underlying().(*types.Slice)
+		if !ok {
+			c.fail("row() of non-slice")
+		}
+		k := ft.elemKey(sl.Elem())
+		at := types.NewArray(sl.Elem(), 0)
+		return SpecVal{T: sel(ft.get(c.st, k), app("sl-base", v.T)), Typ: at, Sort: ft.d.sortOf(at)}
+	case "libcall":
+		// libcall(pkg.Func, args...): the (first) result of a deterministic library function of scalar arguments
+		sig := c.lookupFuncSig(x.Args[0])
+		fname := normName(exprString(x.Args[0]))
+		var as []Term
+		var sorts []Sort
+		for _, a := range x.Args[1:] {
+			v := c.tr(a)
+			as = append(as, v.T)
+			sorts = append(sorts, v.Sort)
+		}
+		rt := sig.Results().At(0).Type()
+		un := fmt.Sprintf("uf!%s#0", fname)
+		ft.d.fun(un, sorts, ft.d.sortOf(rt))
+		return c.mk(app(q(un), as...), rt)
+	case "fnlen", "fnat":
+		sig := c.lookupFuncSig(x.Args[0])
+		fname := normName(exprString(x.Args[0]))
+		if !strings.Contains(fname, ".") && c.pkg != nil {
+			fname = c.pkg.Name() + "." + fname
+		}
+		rest := x.Args[1:]
+		var idx SpecVal
+		if name == "fnat" {
+			idx = c.tr(rest[len(rest)-1])
+			rest = rest[:len(rest)-1]
+		}
+		var as []Term
+		var sorts []Sort
+		for _, a := range rest {
+			v := c.tr(a)
+			as = append(as, v.T)
+			sorts = append(sorts, v.Sort)
+		}
+		sl, ok := sig.Results().At(0).Type().Underlying().(*types.Slice)
+		if !ok {
+			c.fail("%s: function does not return a slice", name)
+		}
+		lenf, rowf := ft.functionalUFs(fname, sorts, sl.Elem())
+		if name == "fnlen" {
+			return SpecVal{T: app(lenf, as...), Typ: intType, Sort: "Int"}
+		}
+		return c.mk(app("select", app(rowf, as...), idx.T), sl.Elem())
 	case "visited":
 		// visited(rangeOrdinal, key): ghost visited-set of the n-th map range of the function
 		n := c.tr(x.Args[0])
@@ -861,4 +913,39 @@ func (ft *FT) nthRange(n Term) *ssa.Range {
 		}
 	}
 	return nil
+}
+
+func (c *SpecCtx) lookupFuncSig(e ast.Expr) *types.Signature {
+	switch f := e.(type) {
+	case *ast.Ident:
+		if c.pkg != nil {
+			if o, ok := c.pkg.Scope().Lookup(f.Name).(*types.Func); ok {
+				return o.Type().(*types.Signature)
+			}
+		}
+	case *ast.SelectorExpr:
+		if id, ok := f.X.(*ast.Ident); ok {
+			if p := c.findImport(id.Name); p != nil {
+				if o, ok := p.Scope().Lookup(f.Sel.Name).(*types.Func); ok {
+					return o.Type().(*types.Signature)
+				}
+			}
+		}
+	}
+	c.fail("unknown function %s", exprString(e))
+	return nil
+}
+
+// functionalUFs: uninterpreted length/content functions naming the result of a deterministic slice-returning function.
+func (ft *FT) functionalUFs(fname string, argSorts []Sort, elem types.Type) (lenf, rowf string) {
+	ln := "uf!" + fname + "!len"
+	rn := "uf!" + fname + "!row"
+	if len(argSorts) == 0 {
+		ft.d.cnst(ln, "Int")
+		ft.d.cnst(rn, arraySort("Int", ft.d.sortOf(elem)))
+	} else {
+		ft.d.fun(ln, argSorts, "Int")
+		ft.d.fun(rn, argSorts, arraySort("Int", ft.d.sortOf(elem)))
+	}
+	return q(ln), q(rn)
 }
